@@ -497,7 +497,7 @@ def check(prop, tier, only, jobs, seed):
         write_evidence(prop, tier, seed, sel, {}, [], [f"generation failed: {e}"], time.time() - t0, 0)
         return 2
     meta = load_props_meta().get(prop, {})
-    default_timeout = int(os.environ.get("VERIF_HARNESS_TIMEOUT", meta.get("timeout", 1500 if tier == "thorough" else 600)))
+    default_timeout = int(os.environ.get("VERIF_HARNESS_TIMEOUT", meta.get("timeout", 1800 if tier == "thorough" else 900)))
     by_pkg = {}
     for h in sel:
         by_pkg.setdefault(h["pkg"], []).append(h)
